@@ -129,7 +129,8 @@ class World(object):
         root = self.roots[cfg.get('root', 'bundled')]
         return {'cfg': cfg,
                 'dec': Decoder(tables_root_dir=root, compiled_template_cache_max=cfg.get('compiled')),
-                'enc': Encoder(tables_root_dir=root, compiled_template_cache_max=cfg.get('compiled')),
+                'enc': Encoder(tables_root_dir=root, compiled_template_cache_max=cfg.get('compiled'),
+                               ignore_declared_length=cfg.get('idl', True)),
                 'loaded': False}
 
     def close(self):
@@ -375,6 +376,7 @@ def ref_spec(plan, i, compiled_override=None):
     chain = []
     # the reference repeats the compile mode of each role: client 0 decodes, client 1 encodes
     clients = plan['clients']
+    eidl = clients[op['c']].get('idl', True) if ('c' in op and k in ('encode', 'encode_bad', 'subset_encode')) else True
     if 'h' in op:
         dop = plan['ops'][op['h']]
         dcomp = clients[dop['c']].get('compiled') is not None
@@ -432,12 +434,12 @@ def ref_spec(plan, i, compiled_override=None):
         dcomp = dcomp and compiled_override
         ecomp = ecomp and compiled_override
     msg = plan['msgs'][mi]
-    key = _h(json.dumps([msg['ref'], _h(msg['hex']), dcomp, ecomp, droot, eroot,
+    key = _h(json.dumps([msg['ref'], _h(msg['hex']), dcomp, ecomp, droot, eroot, eidl,
                          [dict((a, b) for a, b in c.items() if a not in ('c', 'm', 'h')) for c in chain]],
                         sort_keys=True))
     mini = {'engine': 'histsim', 'family': 'ref', 'seed': 0, 'limit': 50,
             'clients': [{'compiled': 8 if dcomp else None, 'root': droot},
-                        {'compiled': 8 if ecomp else None, 'root': eroot}],
+                        {'compiled': 8 if ecomp else None, 'root': eroot, 'idl': eidl}],
             'msgs': [msg], 'ops': chain}
     return key, mini
 
@@ -650,6 +652,8 @@ def gen_plan(family, seed, msgs, tier='quick', index=None):
         else:
             comp = rng.choice([None, None, 0, 1, 2, 8])
         clients.append({'compiled': comp, 'root': rng.choice(['bundled', 'bundled', 'alias'])})
+        if rng.random() < 0.25:
+            clients[-1]['idl'] = False      # this client's encoder honours the declared section lengths
     if c08 and all(c['compiled'] is None for c in clients):
         clients[0]['compiled'] = 1
     limit = rng.choice([1, 2, 3, 50])
